@@ -8,7 +8,7 @@ LEAN_MODULES = ["LunaVerif.Props.C56", "LunaVerif.Props.C56Stream", "LunaVerif.P
                 "LunaVerif.Lemmas.C56StreamAny", "LunaVerif.Props.C56Uart", "LunaVerif.Props.C56Cdc",
                 "LunaVerif.Props.C56SpiBits", "LunaVerif.Lemmas.C56UartRank", "LunaVerif.Props.C56UartLive",
                 "LunaVerif.Props.C56UartMulti", "LunaVerif.Props.C56SpiProgress", "LunaVerif.Props.C56StreamLive",
-                "LunaVerif.Props.C56UartChain", "LunaVerif.Props.C56SpiPins"]
+                "LunaVerif.Props.C56UartChain", "LunaVerif.Props.C56SpiPins", "LunaVerif.Props.C56StreamChain"]
 DRIVER = "Driver/C56.lean"
 REQUIRED_THEOREMS = ["captures_depth_consecutive_samples", "readback_nth", "trigger_during_capture_ignored",
                      "pretrigger_delay", "stream_readout_exact", "stream_readout_complete",
@@ -21,7 +21,9 @@ REQUIRED_THEOREMS = ["captures_depth_consecutive_samples", "readback_nth", "trig
                      "spi_readout_progress", "spi_readout_covers", "sending_within", "stream_readout_total",
                      "cdc_readout_counted", "cdc_readout_fair", "uart_capture_chain", "uart_capture_chain_quiet",
                      "uart_capture_chain_decoded", "uart_readout_duration_any", "uart_readout_within_any",
-                     "bounded_step", "uart_capture_chain_total", "track_bits", "spi_readout_pins"]
+                     "bounded_step", "uart_capture_chain_total", "track_bits", "spi_readout_pins", "stream_capture_chain",
+                     "stream_capture_chain_open", "stream_capture_nth", "stream_capture_chain_total", "cdc_capture_chain",
+                     "cdc_capture_chain_complete", "cdc_capture_chain_open", "cdc_output_prefix", "cdc_chain_output_prefix"]
 RULE = ("cases = (sample_depth in {1,2,5,32,100} (+3,4,7,8,16,33 thorough), samples_pretrigger 0..3, domain sync/usb, "
         "three captured signals of 1+8+5 bits) x pattern: triggers sparse / held high / bursts / random incl. during "
         "capture; inputs random every cycle or a counter; captured_sample_number sweeps and random reads, also while "
@@ -108,11 +110,12 @@ PARTIAL = ("the IntegratedLogicAnalyzer core and all three read-out wrappers are
            "a written word raises r_rdy after a bounded number of read-clock edges; (F4) neither domain is reset during "
            "operation. F1 / F2 are checked on every simulated two-clock trace of the real gateware (the model's ok "
            "output and the word comparison), F3 by the monitor's end-of-trace completeness check; none of them is proved "
-           "for the Gray-code implementation; (2) the CDC and SPI theorems consider one capture per history (no new "
-           "trigger accepted after the hand-over cycle); a whole-history multi-capture statement is written out for the "
-           "UART wrapper only (uart_capture_chain / uart_capture_chain_total: any number of captures at any distance, "
-           "the next trigger accepted as soon as the wrapper is idle even while the transmitter is still sending the "
-           "previous buffer; the last capture followed by 10*divisor*(bytes_per_sample*(depth+1)+1) cycles, the bound of "
+           "for the Gray-code implementation; (2) the SPI theorems consider one capture per history; whole-history multi-capture statements exist for the "
+           "UART wrapper (uart_capture_chain / uart_capture_chain_total) and for the StreamILA with and without clock-"
+           "domain crossing (stream_capture_chain / _open / _nth / _total, cdc_capture_chain / _open / _complete, "
+           "cdc_output_prefix: any number of captures, the history cut at the accepted triggers; the wrapper blocks "
+           "triggers during capture and read-out, so every buffer is sent completely before the next capture starts) (the "
+           "UART chain bound: the last capture followed by 10*divisor*(bytes_per_sample*(depth+1)+1) cycles, the bound of "
            "uart_readout_within_any for a read-out starting from any reachable transmitter state)")
 
 WIDTHS = [1, 8, 5]
